@@ -854,8 +854,10 @@ where
                         store_or_reject!(scheme, regular_headers, kawa, v, invalid_headers);
                     } else if compare_no_case(&k, b":path") {
                         // RFC 9112 §3.2: fragment identifiers (`#`) are
-                        // prohibited in request-targets.
-                        if v.contains(&b'#') {
+                        // prohibited in request-targets, and so is whitespace:
+                        // `:path: /a HTTP/1.1 x` would put a fourth word on
+                        // the H1 request line (request-line injection).
+                        if v.contains(&b'#') || v.contains(&b' ') {
                             metric_reject(RejectReason::InvalidPath);
                             *invalid_headers = true;
                             return;
